@@ -17,6 +17,9 @@ def main(tier, seed):
     for keep in (None, True):
         for pol in ("fifo", "lifo"):
             jobs.append(("props.subflow", "retention", ("C17", pol, keep, 40 if tier == "quick" else 400)))
+    # default retention with a cache of capacity 1 and two processes (one finishing by itself while the other is launched): every schedule, any victim
+    for a, b in (("auto", "one_irq"), ("auto", "auto")):
+        jobs.append(("props.multi", "isolation", ("C17", a, b, 1, "explore", 150 if tier == "quick" else 3000, False)))
     c.run_jobs(jobs)
     return c.finish(
         rule="one path = scenario x keep_processes in {default, true} x one symbolic client action (complete / abort / skip / error / submit; back and push histories are recorded under C03) x answer-all; after the terminal event the rows of "
